@@ -78,6 +78,10 @@ std::unique_ptr<World> makeWorld(size_t maxBuf)
     [wp](SessionId, iora::core::BufferView d, std::chrono::steady_clock::time_point)
     {
       std::string b((const char *)d.data(), d.size());
+      // the delivery is a visible event whose order against deliveries on other threads matters: make the instant
+      // just before it a scheduling point (otherwise the window between the Transport releasing its lock and the
+      // callback body has no point at which another thread can be run)
+      mc_yield_point("data-callback");
       mc_obs("cb '%s'", b.c_str());
       observe(*wp, b, "callback");
     });
@@ -299,8 +303,9 @@ void race(int variant)
     {
       mc_label("feeder");
       w.eng->injectData(w.sid, "ab");
-      w.eng->injectData(w.sid, "c");
-      if (variant != 3)
+      if (variant != 4)
+        w.eng->injectData(w.sid, "c");
+      if (variant != 3 && variant != 4)
         w.eng->injectClose(w.sid);
       mc_label("feeder:done");
     });
@@ -334,6 +339,25 @@ void race(int variant)
         break;
     }
   }
+  std::thread late;
+  if (variant == 4)
+  {
+    // "ab" has arrived and been delivered; a further arrival is injected WHILE the application flushes: it must
+    // reach the callback after the flushed byte
+    doRecv(w, 1, 20, "app");
+    mc_quiesce();
+    late = std::thread(
+      [&]()
+      {
+        mc_label("late-arrival");
+        w.eng->injectData(w.sid, "c");
+        mc_label("late-arrival:done");
+      });
+    mc_label("app:setReadMode");
+    bool ok = w.t->setReadMode(w.sid, ReadMode::Async);
+    mc_obs("flush=%d", int(ok));
+    r.syncBuffered = 0;
+  }
   else if (variant == 1 || variant == 3)
   {
     // one receive, then flush the rest to the callback while data keeps arriving
@@ -347,8 +371,10 @@ void race(int variant)
   feeder.join();
   if (second.joinable())
     second.join();
+  if (late.joinable())
+    late.join();
   mc_quiesce();
-  if (variant == 3)
+  if (variant == 3 || variant == 4)
   {
     w.eng->injectClose(w.sid);
     mc_quiesce();
@@ -388,8 +414,8 @@ int main(int argc, char **argv)
     m.weight = 6;
     v.push_back(m);
   }
-  const char *names[] = {"race_parked_reader", "race_flush", "race_two_readers", "race_flush_open"};
-  for (int k = 0; k < 4; ++k)
+  const char *names[] = {"race_parked_reader", "race_flush", "race_two_readers", "race_flush_open", "race_flush_late_arrival"};
+  for (int k = 0; k < 5; ++k)
   {
     McScenario m;
     m.name = names[k];
@@ -411,6 +437,6 @@ int main(int argc, char **argv)
     if (std::string(argv[i]) == "--tier" && std::string(argv[i + 1]) == "thorough")
       thorough = true;
   if (!getenv("C03_DEPTH"))
-    setenv("C03_DEPTH", thorough ? "6" : "4", 1);
+    setenv("C03_DEPTH", thorough ? "7" : "5", 1);
   return mc_main(argc, argv, "C03_sync_receive", v);
 }
